@@ -7,7 +7,7 @@
     [extract_line]), shared with C19. *)
 From Coq Require Import List ZArith NArith Bool String Arith.
 From RG Require Import Base.Str Base.Num Model.Recipe Model.Compiler Model.Parser Model.Printer Model.LineCol
-  Proofs.LineCol Proofs.ParserFuel Proofs.ParserC07 Proofs.ParserSafe.
+  Proofs.LineCol Proofs.ParserFuel Proofs.ParserC07 Proofs.ParserSafe Proofs.ParserTerm.
 Import ListNotations.
 Open Scope string_scope.
 Open Scope list_scope.
@@ -55,6 +55,20 @@ Print Assumptions C07_overflow_refuted.
 Example C07_308_digits_fine : exists bs, compile_src [repeat 57%N 308 ++ s " x"] = SrcOk bs.
 Proof. exact nines_308_ok. Qed.
 
+(** ** "Out of fuel" is no outcome
+
+    The grammar interpreter is fuelled ([fuel_for x] = 2 * length x + 4 recursion steps); [POutOfFuel] /
+    [SrcOutOfFuel] exist only to make it a total function.  For ANY input they do not occur: every parser
+    function leaves a remaining input that is no longer than the one it got, every function that recurses
+    (string segments, brace groups, step inputs, shorthand actions, output lists, statements, nested
+    expressions) consumes at least one character before it does, and the fuel exceeds the length of the
+    input.  So the outcomes of [compile_src] are: recipe, syntax error, located compile error, or one of the
+    explicit crash outcomes treated above. *)
+Theorem C07_fuel_suffices :
+  (forall x, parse x <> POutOfFuel) /\ (forall srcs, compile_src srcs <> SrcOutOfFuel).
+Proof. exact (conj fuel_suffices compile_src_fuel_suffices). Qed.
+Print Assumptions C07_fuel_suffices.
+
 (** ** Errors are located
 
     Every position computed by offset_to_line_and_column / extract_line - for ANY text and ANY offset,
@@ -85,7 +99,7 @@ Proof. exact error_points_at_token. Qed.
 Print Assumptions C07_error_points_at_token.
 
 (** The same for source texts: the offset is one the PARSER attached to that output name / amount of that
-    block's text.  With [C06_roundtrip_quoted_partial] those are the offsets at which the text carries the
+    block's text.  With [C06_roundtrip_naked_partial] those are the offsets at which the text carries the
     name's first part / the amount ([name_off], start of the reference). *)
 Theorem C07_src_error_points_at_token : forall srcs k b o,
   compile_src srcs = SrcErr k b o ->
